@@ -413,4 +413,238 @@ theorem copyArm_spec (s : St) (x : Src) (hs : s.ok = true) (hr : DestWF s.r) (hx
 theorem natAbs_sg (c : Prop) [Decidable c] (n : Nat) : (if c then (n : Int) else -(n : Int)).natAbs = n := by
   split <;> omega
 
+theorem slice (L : List Nat) (off n a b : Nat) (h : a + b ≤ n) :
+    (L.drop (off + a)).take b = (((L.drop off).take n).drop a).take b := by
+  rw [List.drop_take, List.drop_drop, List.take_take, Nat.min_eq_left (by omega)]
+
+theorem take_after_write (L1 p b : List Nat) (n : Nat) (hp : L1.take n = p) (hn : p.length = n) :
+    ((L1.take n ++ b ++ L1.drop (n + b.length)).take (n + b.length)) = p ++ b := by
+  rw [hp, ← hn, ← List.length_append, List.take_append_of_le_length (Nat.le_refl _), List.take_length]
+
+theorem TInv.wrT_limbs {s0 s : St} {T : Nat} (I : TInv s0 s T) (off : Nat) (l : List Nat) (h : off + l.length ≤ T) :
+    (s.wrT off l).t.limbs = s.t.limbs.take off ++ l ++ s.t.limbs.drop (off + l.length) := by
+  have hW := Blk.write_ok s.t off l I.tw (by rw [I.ta]; exact h)
+  simp only [St.wrT]; exact hW.2.2.2
+
+theorem TInv.rd_val {s0 s : St} {T : Nat} (I : TInv s0 s T) (x : Src) (off n : Nat) (h : off + n ≤ (s0.obj x).blk.alloc) :
+    (s.rd x off n).1 = ((s0.obj x).blk.limbs.drop off).take n := by
+  have := rd_spec s x off n I.ok (by rw [I.obj]; exact h)
+  rw [this.2, I.obj]
+
+
+theorem addAlign_val {s0 s : St} {T : Nat} (I : TInv s0 s T) (us vs : Src) (uoff usz voff vsz ed : Nat)
+    (hub : BlkWF (s0.obj us).blk) (hvb : BlkWF (s0.obj vs).blk)
+    (hu : uoff + usz ≤ (s0.obj us).blk.alloc) (hv : voff + vsz ≤ (s0.obj vs).blk.alloc)
+    (h1 : vsz + ed ≤ T) (h2 : usz ≤ T) (up vp : List Nat)
+    (hup : up = ((s0.obj us).blk.limbs.drop uoff).take usz) (hvp : vp = ((s0.obj vs).blk.limbs.drop voff).take vsz) :
+    (addAlign s us uoff usz vs voff vsz ed).1.t.limbs.take (addAlign s us uoff usz vs voff vsz ed).2.1 = (Mpf.addLimbs up vp ed).1 ∧
+    (addAlign s us uoff usz vs voff vsz ed).2.2 = (Mpf.addLimbs up vp ed).2 := by
+  have hul : up.length = usz := by rw [hup, List.length_take, List.length_drop, hub]; omega
+  have hvl : vp.length = vsz := by rw [hvp, List.length_take, List.length_drop, hvb]; omega
+  have rdu : ∀ (s1 : St), TInv s0 s1 T → ∀ a b, a + b ≤ usz → (s1.rd us (uoff + a) b).2 = s1 ∧ (s1.rd us (uoff + a) b).1 = (up.drop a).take b := by
+    intro s1 I1 a b hab
+    refine ⟨(I1.rd us (uoff + a) b hub (by omega)).1, ?_⟩
+    rw [I1.rd_val us (uoff + a) b (by omega), hup]; exact slice _ uoff usz a b hab
+  have rdv : ∀ (s1 : St), TInv s0 s1 T → ∀ a b, a + b ≤ vsz → (s1.rd vs (voff + a) b).2 = s1 ∧ (s1.rd vs (voff + a) b).1 = (vp.drop a).take b := by
+    intro s1 I1 a b hab
+    refine ⟨(I1.rd vs (voff + a) b hvb (by omega)).1, ?_⟩
+    rw [I1.rd_val vs (voff + a) b (by omega), hvp]; exact slice _ voff vsz a b hab
+  have full : ∀ (l : List Nat) (a : Nat), (l.drop a).take (l.length - a) = l.drop a := by
+    intro l a; exact List.take_of_length_le (by rw [List.length_drop])
+  unfold addAlign Mpf.addLimbs
+  simp only [hul, hvl]
+  by_cases c1 : usz > ed
+  · rw [if_pos c1, if_pos c1]
+    by_cases c2 : vsz + ed ≤ usz
+    · rw [if_pos c2, if_pos c2]
+      have A := rdu s I 0 (usz - ed - vsz) (by omega)
+      simp only [Nat.add_zero, List.drop_zero] at A
+      simp only [A.1, A.2]
+      have hal : (up.take (usz - ed - vsz)).length = usz - ed - vsz := by rw [List.length_take]; omega
+      have I1 := I.wrT 0 (up.take (usz - ed - vsz)) (by rw [hal]; omega)
+      have X := rdu _ I1 (usz - ed - vsz) (usz - (usz - ed - vsz)) (by omega)
+      have Y := rdv _ I1 0 vsz (by omega)
+      simp only [Nat.add_zero, List.drop_zero] at Y
+      rw [← hul, full, hul] at X
+      rw [← hvl, List.take_length, hvl] at Y
+      simp only [X.1, X.2, Y.1, Y.2]
+      refine ⟨?_, by first | rfl | trivial⟩
+      have hwl : (Mpf.addv (up.drop (usz - ed - vsz)) vp).1.length = usz - (usz - ed - vsz) := by
+        rw [addv_len, List.length_drop, hul]
+      rw [I1.wrT_limbs _ _ (by rw [hwl]; omega), I.wrT_limbs _ _ (by rw [hal]; omega)]
+      have t1 := take_write0 s.t.limbs (up.take (usz - ed - vsz))
+      rw [hal] at t1
+      generalize (Mpf.addv (up.drop (usz - ed - vsz)) vp).1 = w at hwl ⊢
+      generalize hsz : usz - ed - vsz = size at *
+      have e : usz = size + w.length := by rw [hwl]; omega
+      rw [hal]
+      conv_lhs => rw [e]
+      exact take_after_write _ _ w size t1 hal
+    · rw [if_neg c2, if_neg c2]
+      have A := rdv s I 0 (vsz + ed - usz) (by omega)
+      simp only [Nat.add_zero, List.drop_zero] at A
+      simp only [A.1, A.2]
+      have hal : (vp.take (vsz + ed - usz)).length = vsz + ed - usz := by rw [List.length_take]; omega
+      have I1 := I.wrT 0 (vp.take (vsz + ed - usz)) (by rw [hal]; omega)
+      have X := rdu _ I1 0 usz (by omega)
+      simp only [Nat.add_zero, List.drop_zero] at X
+      rw [← hul, List.take_length, hul] at X
+      have Y := rdv _ I1 (vsz + ed - usz) (usz - ed) (by omega)
+      rw [show usz - ed = vp.length - (vsz + ed - usz) by omega, full] at Y
+      rw [show vp.length - (vsz + ed - usz) = usz - ed by omega] at Y
+      simp only [X.1, X.2, Y.1, Y.2]
+      refine ⟨?_, by first | rfl | trivial⟩
+      have hwl : (Mpf.addv up (vp.drop (vsz + ed - usz))).1.length = usz := by rw [addv_len, hul]
+      rw [I1.wrT_limbs _ _ (by rw [hwl]; omega), I.wrT_limbs _ _ (by rw [hal]; omega)]
+      have t1 := take_write0 s.t.limbs (vp.take (vsz + ed - usz))
+      rw [hal] at t1
+      generalize (Mpf.addv up (vp.drop (vsz + ed - usz))).1 = w at hwl ⊢
+      generalize hsz : vsz + ed - usz = size at *
+      have e : vsz + ed = size + w.length := by rw [hwl]; omega
+      rw [hal]
+      conv_lhs => rw [e]
+      exact take_after_write _ _ w size t1 hal
+  · rw [if_neg c1, if_neg c1]
+    have A := rdv s I 0 vsz (by omega)
+    simp only [Nat.add_zero, List.drop_zero] at A
+    rw [← hvl, List.take_length, hvl] at A
+    simp only [A.1, A.2]
+    have I1 := I.wrT 0 vp (by rw [hvl]; omega)
+    have hzl : (List.replicate (ed - usz) 0).length = ed - usz := List.length_replicate
+    have I2 := I1.wrT vsz (List.replicate (ed - usz) 0) (by rw [hzl]; omega)
+    have X := rdu _ I2 0 usz (by omega)
+    simp only [Nat.add_zero, List.drop_zero] at X
+    rw [← hul, List.take_length, hul] at X
+    simp only [X.1, X.2]
+    refine ⟨?_, by first | rfl | trivial⟩
+    rw [I2.wrT_limbs _ _ (by rw [hul]; omega), I1.wrT_limbs _ _ (by rw [hzl]; omega), I.wrT_limbs _ _ (by rw [hvl]; omega)]
+    have t1 := take_write0 s.t.limbs vp
+    rw [hvl] at t1
+    rw [hvl]
+    have t2 := take_after_write _ _ (List.replicate (ed - usz) 0) vsz t1 hvl
+    rw [hzl] at t2 ⊢
+    have hl2 : (vp ++ List.replicate (ed - usz) 0).length = vsz + ed - usz := by
+      rw [List.length_append, hvl, hzl]; omega
+    rw [show vsz + (ed - usz) = vsz + ed - usz by omega] at t2 ⊢
+    have t3 := take_after_write _ _ up (vsz + ed - usz) t2 hl2
+    rw [hul] at t3 ⊢
+    exact t3
+
+
+theorem addStore_val {s0 s : St} {T : Nat} (I : TInv s0 s T) (rsize cy : Nat) (hr : rsize ≤ T)
+    (hrb : BlkWF s0.r.blk) (hra : T + 1 ≤ s0.r.blk.alloc) (hcy : cy ≤ 1) :
+    (addStore (s, rsize, cy)).1.r.blk.limbs.take (rsize + cy) =
+      (if cy = 1 then s.t.limbs.take rsize ++ [cy] else s.t.limbs.take rsize) := by
+  unfold addStore
+  have R := I.rdT 0 rsize (by omega)
+  have Rv : (s.rdT 0 rsize).1 = s.t.limbs.take rsize := by simp [St.rdT, Blk.read]
+  simp only [R.1]
+  have hb : BlkWF s.r.blk := by rw [I.r]; exact hrb
+  have ha : s.r.blk.alloc = s0.r.blk.alloc := by rw [I.r]
+  obtain ⟨a1, _, _, _, _, _, _, a7, a8, a9⟩ := wrR_spec s 0 (s.rdT 0 rsize).1 I.ok hb (by rw [R.2, ha]; omega)
+  obtain ⟨_, _, _, _, _, _, _, _, _, b9⟩ := wrR_spec (s.wrR 0 (s.rdT 0 rsize).1) rsize [cy] a1 a8
+    (by rw [a7, ha]; simp only [List.length_singleton]; omega)
+  rw [b9, a9]
+  have := take_two_writes s.r.blk.limbs (s.rdT 0 rsize).1 cy cy hcy
+  rw [R.2] at this
+  rw [R.2, this, Rv]
+
+
+theorem natAbs_sgb (c : Bool) (n : Nat) : (if c = true then -(n : Int) else (n : Int)).natAbs = n := by
+  split <;> omega
+
+theorem addSameSign_view (s : St) (negate : Bool) (us vs : Src) (hs : s.ok = true) (hr : DestWF s.r)
+    (hu : OpndWF (s.obj us)) (hv : OpndWF (s.obj vs)) (he : (s.obj vs).exp ≤ (s.obj us).exp)
+    (hlu : Limbs (s.obj us).view.d) (hlv : Limbs (s.obj vs).view.d) :
+    (addSameSign 0 s negate us vs).r.view =
+      ⟨s.r.prec,
+       if negate = true then -((Mpf.addMag s.r.prec (s.obj us).view.d (s.obj us).exp (s.obj vs).view.d (s.obj vs).exp).1.length : Int)
+       else ((Mpf.addMag s.r.prec (s.obj us).view.d (s.obj us).exp (s.obj vs).view.d (s.obj vs).exp).1.length : Int),
+       (Mpf.addMag s.r.prec (s.obj us).view.d (s.obj us).exp (s.obj vs).view.d (s.obj vs).exp).2,
+       (Mpf.addMag s.r.prec (s.obj us).view.d (s.obj us).exp (s.obj vs).view.d (s.obj vs).exp).1⟩ := by
+  obtain ⟨hrb, hra⟩ := hr
+  obtain ⟨hub, hua⟩ := hu
+  obtain ⟨hvb, hva⟩ := hv
+  have hul : (s.obj us).size.natAbs ≤ (s.obj us).blk.limbs.length := by rw [hub]; exact hua
+  have hvl : (s.obj vs).size.natAbs ≤ (s.obj vs).blk.limbs.length := by rw [hvb]; exact hva
+  have hsel := sel_top (s.obj us).blk.limbs (s.obj us).size.natAbs s.r.prec hul
+  unfold addSameSign Mpf.addMag
+  simp only [Nat.add_zero, FObj.view] at hlu hlv ⊢
+  simp only [Mpf.selV_eq, ← hsel]
+  generalize hP : s.r.prec = P at hra hsel
+  generalize (s.obj us).size.natAbs = usize at hua hul hlu hsel
+  generalize (s.obj vs).size.natAbs = vsize at hva hvl hlv
+  have hvdl : (List.take vsize (s.obj vs).blk.limbs).length = vsize := by rw [List.length_take]; omega
+  simp only [hvdl]
+  generalize hed : (s.obj us).exp - (s.obj vs).exp = ediff
+  have hed0 : 0 ≤ ediff := by omega
+  have I : TInv s (s.tmpAlloc P) P := ⟨hs, rfl, rfl, rfl, rfl, by simp [BlkWF, St.tmpAlloc, Blk.new]⟩
+  generalize huo : (if usize > P then usize - P else 0) = uoff at hsel
+  generalize hus : (if usize > P then P else usize) = usz at hsel
+  have hu1 : uoff + usz ≤ (s.obj us).blk.alloc := by subst huo hus; split <;> omega
+  have hu2 : usz ≤ P := by subst hus; split <;> omega
+  have hupl : (List.take usz (List.drop uoff (s.obj us).blk.limbs)).length = usz := by
+    have := hub; unfold BlkWF at this
+    rw [List.length_take, List.length_drop]; omega
+  by_cases c : ediff ≥ (P : Int)
+  · rw [if_pos c, if_pos c]
+    simp only [St.setSE, natAbs_sgb, hupl]
+    by_cases c2 : us = .r ∧ uoff = 0
+    · rw [if_pos c2]
+      obtain ⟨cx, co⟩ := c2
+      subst cx co
+      simp [St.tmpAlloc, St.obj, hP]
+    · rw [if_neg c2]
+      have C := copyToR_spec (s.tmpAlloc P) us uoff usz hs hrb
+        (by rw [I.obj]; exact hub) (by rw [I.obj]; exact hu1) (by show _ ≤ s.r.blk.alloc; omega)
+      rw [C.2.2.2.2.2.2.2.2, C.2.2.2.1, I.obj]
+      simp [St.tmpAlloc, hP]
+  · rw [if_neg c, if_neg c]
+    unfold addOverlap
+    have c' : ediff < (P : Int) := by omega
+    have hvo : (if decide ((vsize : Int) + ediff > (P : Int)) = true then ((vsize : Int) + ediff - (P : Int)).toNat else 0) =
+        ((vsize : Int) + ediff - (P : Int)).toNat := by
+      by_cases c3 : (vsize : Int) + ediff > (P : Int) <;> simp only [c3, decide_true, decide_false, Bool.false_eq_true, ↓reduceIte] <;> omega
+    rw [hvo]
+    generalize hvoff : ((vsize : Int) + ediff - (P : Int)).toNat = voff
+    generalize hvs : (if decide ((vsize : Int) + ediff > (P : Int)) = true then (P : Int) - ediff else (vsize : Int)) = vsz
+    have hvz : vsz.toNat = vsize - voff := by
+      subst hvs hvoff; by_cases c3 : (vsize : Int) + ediff > (P : Int) <;> simp only [c3, decide_true, decide_false, Bool.false_eq_true, ↓reduceIte] <;> omega
+    have hvo2 : voff ≤ vsize := by omega
+    have hv2 : vsz.toNat + ediff.toNat ≤ P := by omega
+    rw [hvz] at hv2 ⊢
+    have hv1 : voff + (vsize - voff) ≤ (s.obj vs).blk.alloc := by omega
+    have evp : List.drop voff (List.take vsize (s.obj vs).blk.limbs) = List.take (vsize - voff) (List.drop voff (s.obj vs).blk.limbs) := by
+      rw [List.drop_take]
+    rw [evp]
+    generalize hup : List.take usz (List.drop uoff (s.obj us).blk.limbs) = up at hupl hsel
+    generalize hvp : List.take (vsize - voff) (List.drop voff (s.obj vs).blk.limbs) = vp
+    have hLu : Limbs up := by rw [hsel]; exact Limbs_drop hlu _
+    have hLv : Limbs vp := by rw [← hvp, ← evp]; exact Limbs_drop hlv _
+    have A := addAlign_safe I us vs uoff usz voff (vsize - voff) ediff.toNat hub hvb hu1 hv1 hv2 hu2
+    have V := addAlign_val I us vs uoff usz voff (vsize - voff) ediff.toNat hub hvb hu1 hv1 hv2 hu2 up vp hup.symm hvp.symm
+    have L := Mpf.addLimbs_spec up vp ediff.toNat hLu hLv
+    generalize addAlign (s.tmpAlloc P) us uoff usz vs voff (vsize - voff) ediff.toNat = q at A V
+    obtain ⟨sq, rsize, cy⟩ := q
+    simp only at A V
+    have S := addStore_safe A.1 rsize cy A.2 hrb (by omega)
+    have hcy : cy ≤ 1 := by rw [V.2]; exact L.2.2.1
+    have SV := addStore_val A.1 rsize cy A.2 hrb (by omega) hcy
+    rw [V.1] at SV
+    generalize Mpf.addLimbs up vp ediff.toNat = al at V SV L
+    obtain ⟨tp, cy'⟩ := al
+    simp only at V SV L ⊢
+    have hcc : cy' = cy := V.2.symm
+    subst hcc
+    have htl : tp.length = rsize := by
+      rw [← V.1, List.length_take, A.1.tw, A.1.ta]; omega
+    have s21 : (addStore (sq, rsize, cy')).2.1 = rsize := by rw [S.2]
+    have s22 : (addStore (sq, rsize, cy')).2.2 = cy' := by rw [S.2]
+    have hpr : (addStore (sq, rsize, cy')).1.r.prec = P := by rw [S.1.prec, hP]
+    simp only [St.setSE, s21, s22, natAbs_sgb, SV, hpr]
+    rcases Nat.le_one_iff_eq_zero_or_eq_one.mp hcy with h | h <;> subst h
+    · simp [htl]
+    · simp [htl]
+
+
 end Mpir.AllocSafe7
